@@ -45,8 +45,20 @@ def run_batch(cmd, scripts, env=None, timeout=600):
 
 
 def norm_line(line, nfields=5):
-    """The compared part of an outcome line: ret errno payload digest-root digest-aux."""
+    """The compared part of an outcome line: ret errno payload digest-root digest-aux.
+    nfields may also be a function line -> comparable string."""
+    if callable(nfields):
+        return nfields(line)
     return " ".join(line.split(" ")[:nfields])
+
+
+def norm_enomem_as_einval(line):
+    """For the INT_MAX-index probe: an allocation failure (ENOMEM) and a range error (EINVAL) are
+    both acceptable ways of refusing a list that cannot exist."""
+    f = line.split(" ")[:5]
+    if len(f) > 1 and f[1] == "E12":
+        f[1] = "EINVAL"
+    return " ".join(f)
 
 
 class Diff(object):
@@ -193,33 +205,40 @@ MALFORMED = [b"", b"[", b"[x]", b"a..b", b"{", b"{}x", b"a[", b"a]", b"=x", b"#"
              b"a\\", b"[1]]", b"a b", b" a ", b"a  =", b"[+][+]", b"[0+][0+]", b"a\\ \\ ", b"\\.\\.a  "]
 
 
-def gen_descriptor(rng, keys, maxlen=4):
-    """A descriptor from the documented grammar (may or may not match the tree)."""
+def gen_parts(rng, keys, maxlen=4):
+    """Path components: ("k", quoted key) or ("s", subscript)."""
     parts = []
-    n = rng.randint(1, maxlen)
-    out = bytearray()
-    if rng.random() < 0.15:
-        out += b"."
-        if rng.random() < 0.3:
-            return bytes(out)
-    prev = None
-    for i in range(n):
+    for i in range(rng.randint(1, maxlen)):
         if rng.random() < 0.6:
             k = rng.choice(keys)
             q = k if (k in PLAIN_KEYS and rng.random() < 0.9) else py_quote_key(k)
+            parts.append(("k", q))
+        else:
+            parts.append(("s", rng.choice(SUBSCRIPTS)))
+    return parts
+
+
+def join_parts(rng, parts):
+    out = bytearray()
+    if rng.random() < 0.15:
+        out += b"."
+        if rng.random() < 0.2:
+            return bytes(out)
+    prev = None
+    for kind, b in parts:
+        if kind == "k":
             if prev is not None:
                 out += b"."
             if rng.random() < 0.05:
                 out += b" "
-            out += q
+            out += b
             if rng.random() < 0.05:
                 out += b" "
-            prev = "k"
         else:
             if prev is not None and rng.random() < 0.1:
                 out += b"."
-            out += rng.choice(SUBSCRIPTS)
-            prev = "s"
+            out += b
+        prev = kind
     r = rng.random()
     if r < 0.08:
         out += b"."
@@ -230,7 +249,28 @@ def gen_descriptor(rng, keys, maxlen=4):
     return bytes(out)
 
 
-def gen_any_descriptor(rng, keys):
+def gen_descriptor(rng, keys, maxlen=4, used=None, reuse=0.0):
+    """A descriptor from the documented grammar.  With probability [reuse] a prefix of a path
+    used by an earlier set (insert/append subscripts turned into plain ones)."""
+    if used and rng.random() < reuse:
+        parts = list(rng.choice(used))
+        parts = parts[:rng.randint(1, len(parts))]
+        fixed = []
+        for kind, b in parts:
+            if kind == "s" and b"+" in b:
+                digits = bytes(c for c in b if 48 <= c <= 57)
+                b = b"[" + (digits or b"0") + b"]"
+            fixed.append((kind, b))
+        if rng.random() < 0.15:
+            fixed += gen_parts(rng, keys, 1)
+        return join_parts(rng, fixed)
+    parts = gen_parts(rng, keys, maxlen)
+    if used is not None:
+        used.append(parts)
+    return join_parts(rng, parts)
+
+
+def gen_any_descriptor(rng, keys, used=None, reuse=0.0):
     r = rng.random()
     if r < 0.08:
         return rng.choice(MALFORMED)
@@ -238,11 +278,11 @@ def gen_any_descriptor(rng, keys):
         # random bytes from a punctuation-rich alphabet
         alpha = b"ab.[]{}+=#\\ 019-_\t$"
         return bytes(rng.choice(alpha) for _ in range(rng.randint(1, 8)))
-    return gen_descriptor(rng, keys)
+    return gen_descriptor(rng, keys, 4, used, reuse)
 
 
-def gen_set_arg(rng, keys):
-    d = gen_any_descriptor(rng, keys)
+def gen_set_arg(rng, keys, used=None):
+    d = gen_any_descriptor(rng, keys, used, 0.25)
     r = rng.random()
     if r < 0.72:
         return d + b"=" + rng.choice(VALUES)
@@ -253,8 +293,8 @@ def gen_set_arg(rng, keys):
     return d + rng.choice([b" x", b"]", b"}", b"+", b"$"])
 
 
-def gen_query_arg(rng, keys):
-    d = gen_any_descriptor(rng, keys)
+def gen_query_arg(rng, keys, used=None):
+    d = gen_any_descriptor(rng, keys, None if used is None else list(used), 0.7)
     if rng.random() < 0.06:
         d += rng.choice([b"=", b"=x", b"#", b" $", b"]", b"+"])
     return d
@@ -265,32 +305,33 @@ def gen_script(rng, length, keys=None, with_copy=True):
         nk = rng.randint(2, 5)
         keys = rng.sample(PLAIN_KEYS, min(nk, len(PLAIN_KEYS))) + rng.sample(HOSTILE_KEYS, rng.randint(0, 3))
     ops = []
+    used = []
     for _ in range(length):
         r = rng.random()
         if r < 0.42:
-            ops.append(("set", gen_set_arg(rng, keys)))
+            ops.append(("set", gen_set_arg(rng, keys, used)))
         elif r < 0.54:
-            ops.append(("del", gen_query_arg(rng, keys)))
+            ops.append(("del", gen_query_arg(rng, keys, used)))
         elif r < 0.60:
-            ops.append(("get", gen_query_arg(rng, keys)))
+            ops.append(("get", gen_query_arg(rng, keys, used)))
         elif r < 0.65:
-            ops.append(("type", gen_query_arg(rng, keys)))
+            ops.append(("type", gen_query_arg(rng, keys, used)))
         elif r < 0.70:
-            ops.append(("count", gen_query_arg(rng, keys)))
+            ops.append(("count", gen_query_arg(rng, keys, used)))
         elif r < 0.75:
-            ops.append(("keys", gen_query_arg(rng, keys)))
+            ops.append(("keys", gen_query_arg(rng, keys, used)))
         elif r < 0.80:
-            ops.append(("getsub", gen_query_arg(rng, keys)))
+            ops.append(("getsub", gen_query_arg(rng, keys, used)))
         elif r < 0.85:
-            ops.append(("setsub", gen_query_arg(rng, keys)))
+            ops.append(("setsub", gen_query_arg(rng, keys, used)))
         elif r < 0.89:
-            ops.append(("subset", gen_query_arg(rng, keys), gen_set_arg(rng, keys)))
+            ops.append(("subset", gen_query_arg(rng, keys, used), gen_set_arg(rng, keys, used)))
         elif r < 0.92:
-            ops.append(("subdel", gen_query_arg(rng, keys), gen_query_arg(rng, keys)))
+            ops.append(("subdel", gen_query_arg(rng, keys, used), gen_query_arg(rng, keys, used)))
         elif r < 0.95 and with_copy:
-            ops.append(("copyout", gen_query_arg(rng, keys)))
+            ops.append(("copyout", gen_query_arg(rng, keys, used)))
         elif r < 0.98 and with_copy:
-            ops.append(("copyin", gen_query_arg(rng, keys)))
+            ops.append(("copyin", gen_query_arg(rng, keys, used)))
         else:
             ops.append(("quote", rng.choice(keys + HOSTILE_KEYS)))
     return ops
